@@ -18,9 +18,10 @@ META = {
         "that creates or retires a worker is taken under the pool lock on inputs read under that lock, all of whose writers "
         "hold it; C10.6 no blocking primitive is called while the pool lock is held; C10.7 the only non-stop retirement is "
         "guarded by `threads > min`, and every exit of the worker (normal, retirement, sentinel, exceptional) decrements the "
-        "thread counter exactly once. C10.8 the handler that contains a failing task in the worker only hands the user-supplied objects (exception, callable) on - logger arguments, getattr with a default - and never evaluates them (attribute load, eager formatting, call): otherwise a second exception escapes the handler and the worker dies, leaving fewer than min_threads workers."),
+        "thread counter exactly once. C10.8 the handler that contains a failing task in the worker only hands the user-supplied objects (exception, callable) on - logger arguments, getattr with a default - and never evaluates them (attribute load, eager formatting, call): otherwise a second exception escapes the handler and the worker dies, leaving fewer than min_threads workers. C10.9 (imported from C11.3) stop() queues one sentinel per registered thread, joins the workers and only then clears the thread list and drains the queue: sentinels that nobody consumed do not survive into a restarted pool (where they would retire the new workers below min_threads)."),
     "does_not_decide": "the instantaneous bounds and the progress of dependent tasks over all interleavings.",
-    "rules": {"C10.1": "who-may-create + dominance with normalised comparisons", "C10.2": "shape interpreter over argument classes",
+    "rules": {"C10.9": "imported C11.3 (stop protocol ordering)",
+              "C10.1": "who-may-create + dominance with normalised comparisons", "C10.2": "shape interpreter over argument classes",
               "C10.3": "dominance + lockset", "C10.4": "shape interpreter with a stubbed __start_thread", "C10.5": "E5 snapshot rule (reads, writers, locksets)",
               "C10.6": "E5 blocking-call table under lockset", "C10.7": "exit-complete event-count exploration",
               "C10.8": "syntax-directed use classification of the containment handler"},
@@ -541,3 +542,8 @@ def check(ck):
     from rules import common
     common.check_inert_handlers(ck, "C10.8", scopes=("worker",))
     ck.floor("C10.8", 2)
+
+    # ---- C10.9 no stale sentinel survives a stop (shared with C11.3) --------------------------------------------------------------
+    from rules import c11 as _c11s
+    common.import_rules(ck, _c11s, {"C11.3": "C10.9"})
+    ck.floor("C10.9", 7)
